@@ -832,7 +832,12 @@ func (m *Machine) errorf(format value, args []value) value {
 			i = j
 		}
 	}
-	msg := m.sprintf(strings.ReplaceAll(f, "%w", "%v"), args).(string)
+	msg, isStr := m.sprintf(strings.ReplaceAll(f, "%w", "%v"), args).(string)
+	if !isStr {
+		// the message quotes symbolic text; error messages are not the subject of any property
+		m.stubsUsed["fmt.Errorf with symbolic operands → error with an opaque message (the %w operand is kept)"]++
+		msg = "error (message contains symbolic text)"
+	}
 	if wrapped != nil && m.sh.wrapErrorT != nil {
 		if wi, ok := wrapped.(iface); ok && wi.t != nil {
 			p := new(value)
